@@ -185,6 +185,18 @@ pub fn variants(c: &Case, thorough: bool) -> Vec<Variant> {
                 text: sp.text,
             });
         }
+        // the `//` comments the lexer also accepts (and the parser option that allows them): to the end of the line
+        for (mname, mtext) in [("line-comment", " // c\n"), ("line-comment-crlf", " // (* c\r\n")] {
+            if !thorough && gi % 2 != 0 {
+                continue;
+            }
+            let sp = spell_with(lx, "", "", &|j, gg| if j == i { mtext.to_string() } else { canonical_gap(gg) });
+            out.push(Variant {
+                key: format!("gap/{}·{}/line-comment", side(&lx[i]), side(&lx[i + 1])),
+                what: format!("trivia `{}` between lexeme {} `{}` and `{}`", mname, i, lx[i].text, lx[i + 1].text),
+                text: sp.text,
+            });
+        }
         if g == Glue::Blank && may_abut(&lx[i], &lx[i + 1]) {
             let sp = spell_with(lx, "", "", &|j, gg| if j == i { String::new() } else { canonical_gap(gg) });
             out.push(Variant {
@@ -278,6 +290,16 @@ fn base_of(text: &str) -> Option<Base> {
 
 /// None = same meaning; Some(description) otherwise.
 fn judge(base: &Base, text: &str) -> Option<String> {
+    if text.contains("//") {
+        // a `//` comment: the same program under the parser option that allows such comments
+        let r = crate::util::catch(|| front::parse_allowing_c_style_comments(text, "case.st"));
+        match r {
+            Err(p) => return Some(format!("with allow_c_style_comments: parser panicked at {}", p.loc)),
+            Ok(Err(d)) => return Some(format!("with allow_c_style_comments: rejected with {} at {}..{}", d.code, d.primary.location.start, d.primary.location.end)),
+            Ok(Ok(lib)) if lib != base.lib => return Some("with allow_c_style_comments: parses to a different library".to_string()),
+            _ => {}
+        }
+    }
     let r = crate::util::catch(|| front::parse(text, "case.st"));
     match r {
         Err(p) => Some(format!("parser panicked at {}", p.loc)),
